@@ -474,9 +474,12 @@ NLW2_SOLReadResultCode SOLReader2<SOLHandler>::bsufread(FILE* f) {
       return NLW2_SOLRead_Bad_Suffix;
     if (fread(SR.name, (size_t)SR.h.namelen, 1, f) != 1)
       return ReportEarlyEof();
+    SR.name[SR.h.namelen-1] = 0;
     if (SR.h.tablen && fread(SR.table, (size_t)SR.h.tablen,
                              1, f) != 1)
       return NLW2_SOLRead_Bad_Suffix;
+    if (SR.h.tablen)
+      SR.table[SR.h.tablen-1] = 0;
     SuffixInfo si(SR.h.kind, SR.name, SR.table);
     if (SR.h.kind & 4) {        // real-valued
       SuffixReader<double> sr(std::move(si), f, 1, SR.h.n);
